@@ -1133,7 +1133,7 @@ theorem C07_open_switch_network (pre post : List (Branch String GQ)) (z : String
     simp only [List.filter_append, List.filter_cons, hv, Bool.not_false, if_true]
     by_cases hij : i = j
     · simp only [hij, if_true]
-      by_cases hc : (decide (b.n1 = j ∨ b.n2 = j)) = true
+      by_cases hc : (decide ((b.n1 = j ∨ b.n2 = j) ∧ b.n1 ≠ b.n2)) = true
       · simp [hc, hy]
       · simp [hc]
     · simp only [hij, if_false]
